@@ -22,7 +22,7 @@ NOMINAL = {"len": 5, "age": 10, "kind": 1, "pk": "A", "pow": 4, "ptags": 0, "sig
 REASONS = [("280 characters", {"is_not_too_large"}), ("too old", {"is_recent"}), ("in the future", {"is_recent"}),
            ("kind=", {"is_certain_kind"}), ("PoW required", {"is_pow"}), ("too many 'p' tags", {"is_not_hellthread"}),
            ("must be", {"is_service_event"}), ("not allowed", {"is_author_whitelisted", "is_author_blacklisted"}),
-           ("Bad signature", {"is_signed"}), ("Bad id", {"is_signed"})]
+           ("Bad signature", {"is_signed"}), ("Bad id", {"is_signed"}), ("Signature must be", {"is_signed"}), ("signature", {"is_signed"})]
 
 
 def attribute_vectors():
@@ -43,6 +43,10 @@ def attribute_vectors():
     for kind in (7, 5):
         for n in (2, 3):
             out.append(dict(NOMINAL, kind=kind, ptags=n))
+    # an unverifiable signature in forms on which the verifier raises rather than returns: the policy chain must not go on
+    out.append(dict(NOMINAL, signed=False, _sig="short"))
+    out.append(dict(NOMINAL, signed=False, _sig="zero"))
+    out.append(dict(NOMINAL, signed=False, _sig="short", len=21))
     out.append(dict(NOMINAL, kind=31494, pk="S"))
     out.append(dict(NOMINAL, kind=31494, pk="B"))
     # two policies objecting at once: the reason must be the first one's
@@ -72,7 +76,13 @@ def build_event(v, n):
             break
         nonce += 1
     if not v["signed"]:
-        ev["sig"] = ev["sig"][:-2] + ("00" if ev["sig"][-2:] != "00" else "01")
+        form = v.get("_sig", "flip")
+        if form == "short":
+            ev["sig"] = "00"                 # the verifier raises instead of answering: still a refusal by is_signed
+        elif form == "zero":
+            ev["sig"] = "00" * 64
+        else:
+            ev["sig"] = ev["sig"][:-2] + ("00" if ev["sig"][-2:] != "00" else "01")
     return ev
 
 
